@@ -104,19 +104,15 @@ def model_layer(run, tier, d):
         for r in group:
             r["tid"] = len(recs) + 1
             recs.append(r)
-    tp = os.path.join(d, "groundstate.ndjson")
-    dump_ndjson(tp, recs)
-    res = tlc.run("GroundState.tla", "GroundState.cfg", env={"TRACE_FILE": tp, "SYMDATA": symdata, "REFGROUPS": refgroups,
-                                                              "FILTER_IMPROPER": filt}, timeout=3000)
-    if res.distinct != 2 * len(recs):
-        raise MachineryError("GroundState consumed %d of %d records" % (res.distinct // 2, len(recs)))
+    # validated in batches: the thorough tier produces ~4e5 records (230 MB of ndjson), too much for one JVM
+    res, fails = tlc.run_chunks("GroundState.tla", "GroundState.cfg", recs, os.path.join(d, "groundstate"),
+                                env={"SYMDATA": symdata, "REFGROUPS": refgroups, "FILTER_IMPROPER": filt}, chunk=15000, timeout=3000)
     run.add_model(res, "GroundState: %d occupations x every origin choice, all 230 groups (selection core)" % len(recs))
     run.traces(len(recs))
     run.count(len(recs))
     run.notes["groundstate_occupations"] = len(recs)
     run.notes["groundstate_nonidentity_selected"] = sum(1 for r in recs if r["variants"] and any(v["occ"] != r["res"]["occ"] for v in r["variants"]) or r["res"]["det"] == -1)
-    for tid, clause in res.printed("FAIL"):
-        r = recs[tid - 1]
+    for r, (clause,) in fails:
         desc = "sg=%d orbits=%s" % (r["sg"], [(o["letter"], o["z"]) for o in r["orbits"]])
         if clause.startswith("DRIFT"):
             run.model_drift("GroundState %s %s" % (clause, desc))
